@@ -410,7 +410,8 @@ pub fn run(tier: &Tier) -> i32 {
         let site = format!("{} / {}", p.name, match m { Mode::Interpreted => "-i", Mode::Trap(_) => "trap flag", Mode::Int3(_) | Mode::Int3All => "int 3" });
         report_cli(rep, &site, res, &src, &sc.lines, interpreted, &out, json!({"script": sc.what, "mode": format!("{:?}", m)}));
         // relational oracle on the default script: stepped output minus artefacts == plain output
-        if sc.deviations == 0 {
+        // (a program that reads stdin itself sees different input in the two runs: only the event oracle applies)
+        if sc.deviations == 0 && p.name != "input" {
             let twin = plain_twin_src(&src, *m);
             let plain = run_cli(&twin, "", &CliOpts::default());
             relational.fetch_add(1, Ordering::Relaxed);
